@@ -61,11 +61,15 @@ def rhs_from_spec(sy, ode_polys, theta):
 def solve(rhs, x0, times, method="DOP853", rtol=1e-12, atol=1e-13):
     """solution at times[1:] started from x0 at times[0]; returns array (len(times), n) incl. the origin row"""
     times = [float(t) for t in times]
-    sol = solve_ivp(rhs, (times[0], times[-1]), np.array(x0, float), method=method, t_eval=times,
+    uniq = sorted(set(times))            # repeated requested times: solve once, report the same row again
+    if len(uniq) == 1:
+        return np.array([x0 for _ in times], float)
+    sol = solve_ivp(rhs, (uniq[0], uniq[-1]), np.array(x0, float), method=method, t_eval=uniq,
                     rtol=rtol, atol=atol)
-    if not sol.success or sol.y.shape[1] != len(times):
+    if not sol.success or sol.y.shape[1] != len(uniq):
         raise RuntimeError("reference integration failed: " + str(sol.message))
-    return sol.y.T
+    where = {t: k for k, t in enumerate(uniq)}
+    return sol.y.T[[where[t] for t in times]]
 
 
 def mat_from_spec(sy, mat_polys):
